@@ -223,11 +223,22 @@ func Gen(r *rand.Rand) emit.Case {
 	}
 	// track consumption through the implementation to aim at limit - consumed +- 1
 	m := newMgr(in.Raw)
+	if r.Intn(8) != 0 { // mostly: the initial consumption is within the limit
+		cur := m.UnitsConsumed()
+		for k := 0; k < 5; k++ {
+			if cur[k] > in.Limit[k] {
+				in.Limit[k] = cur[k] + pick(r, 0, 1, 5, 30, 1000)
+				if in.Limit[k] < cur[k] {
+					in.Limit[k] = MaxU
+				}
+			}
+		}
+	}
 	n := 1 + r.Intn(9)
 	for i := 0; i < n; i++ {
 		cur := m.UnitsConsumed()
 		var u [5]uint64
-		allFit := r.Intn(3) != 0
+		allFit := r.Intn(5) != 0
 		for k := 0; k < 5; k++ {
 			rem := uint64(0)
 			if in.Limit[k] > cur[k] {
